@@ -261,7 +261,7 @@ Definition decode_sched (l : list Z) : list Z := match l with 9 :: r => r | _ =>
 
 Definition init (ops : list (list Z)) : st :=
   let d := decode ops in
-  let m := S (dmax d) in
+  let m := Nat.min (S (dmax d)) 3 in       (* dmax <= 2 always *)
   let progs := firstn m [dp0 d; dp1 d; dp2 d] in
   let cl := map (fun ip => next_client (fst ip) (snd ip)) (combine (seq 0 m) progs) in
   mkSt [] false (seq m (dn d)) 0 false m [] (cl ++ repeat WIdle (dn d)).
